@@ -17,7 +17,7 @@ ASSUMPTIONS = ["a script whose command raises leaves the chain failed and the co
 RULE = ("scripts of 1..6 commands x one fault at a random point of the conversation: connection refused, session refused by the server (3.3 / 3.7 / 3.8, reason possibly empty), authentication failed (3.3 / 3.8 with reason), unknown server message, "
         "clean close by the server before / in the middle of (also half way through an update, with a capture waiting) / after the script, reset (also while vncdo's own close is in progress), silence - each with and without --timeout T; non-trivial = distinct (script, fault, timeout)")
 
-FAULTS = ["none", "refused", "auth-failed", "server-refuses", "unknown-msg", "lose-clean", "lose-clean", "lose-error", "silent"]
+FAULTS = ["none", "refused", "auth-failed", "server-refuses", "unknown-msg", "unknown-encoding", "lose-clean", "lose-clean", "lose-error", "silent", "silent-in-handshake"]
 
 
 def cmd_bounds_c09(words):
@@ -97,6 +97,9 @@ def play(r, spec, fault, at):
             return res
         finally:
             v.close()
+    if fault == "silent-in-handshake":
+        spec.silent_in_handshake = True
+        return drive(r, spec, faults=[], max_steps=40)
     faults = [] if fault == "none" else [(at, fault)]
     res = drive(r, spec, faults=faults, max_steps=40)
     return res
@@ -167,6 +170,17 @@ def run(ctx):
             # status 0 only if the script was carried out completely and vncdo itself then closed the connection
             if st == 0 and not (completed and close_before_lost and "lose-clean" in kinds):
                 ctx.violate("status-zero-lie", dict(rp, observed="exit status 0 although the script was not completed / the connection was not closed by vncdo (events %r)" % kinds[-6:]))
+            # a close that is not the one after the last command's finish marker is the client aborting (protocol error, refusal):
+            # whatever happens afterwards, the run must not report success
+            fin = next((i for i, t in enumerate(tl) if t == "finish:%d" % (ncmds - 1)), len(tl))
+            aborted = any(t == "close" for t in tl[:fin])
+            if aborted:
+                ia = next(i for i, t in enumerate(tl[:fin]) if t == "close")
+                later = [t for t in tl[ia + 1:] if t.split(":")[0] in ("upd", "fill", "copy", "commit", "begin", "save", "desktop", "cursor", "bell", "made")]
+                if later:
+                    ctx.violate("progress-after-abort", dict(rp, observed="after aborting the connection (close) the client went on interpreting the server's data: %r - a script could complete and report success on a connection it had given up" % later[:4]))
+            if st == 0 and aborted:
+                ctx.violate("status-zero-lie", dict(rp, observed="exit status 0 although the client had aborted the connection (a close before the script was complete)"))
             ncap = sum(1 for w_ in spec.words if w_ in ("capture", "rcapture"))
             nsaved = sum(1 for t in tl if t.startswith("save:"))
             if st == 0 and nsaved < ncap:
@@ -175,6 +189,8 @@ def run(ctx):
                 ctx.violate("no-status", dict(rp, observed="the connection is gone but no exit status was set (exit_status=%r)" % st))
             if fault in ("auth-failed", "server-refuses") and (st in (None, 1) or "close" not in tl):
                 ctx.violate("no-status", dict(rp, observed="the server refused / failed the authentication but vncdo did not close the connection and set a status (exit_status=%r, trace %r)" % (st, tl[-4:])))
+            if fault in ("silent-in-handshake",) and st == 0:
+                ctx.violate("status-zero-lie", dict(rp, observed="fault %s ended with exit status 0" % fault))
             if fault in ("refused", "auth-failed", "server-refuses") and st == 0:
                 ctx.violate("status-zero-lie", dict(rp, observed="fault %s ended with exit status 0" % fault))
             # --timeout T bounds the run: the reactor is stopped at virtual time <= T + 0.1 s
